@@ -24,6 +24,8 @@ fn main() {
         "trace" => engines::trace::run(&args, &mut rep),
         "invariance" => engines::invariance::run(&args, &mut rep),
         "lifecycle" => engines::lifecycle::run(&args, &mut rep),
+        #[cfg(feature = "parallel")]
+        "rendezvous" => engines::rendezvous::run(&args, &mut rep),
         "plan-layout" => {
             engines::invariance::print_layout(&args);
             return;
